@@ -236,6 +236,8 @@ def discharge(ob, use_cvc5=True, z3_ms=None, cvc5_ms=None):
             ob.model = {}
         return ob
     ob.reason = f"z3: {s.reason_unknown()}"
+    if os.environ.get("PYVC_DUMP"):
+        open(os.path.join(os.environ["PYVC_DUMP"], f"vc_{abs(hash(ob.name)) % 10**8}.smt2"), "w").write(s.to_smt2())
     if use_cvc5:
         t1 = time.time()
         try:
